@@ -305,13 +305,14 @@ func init() {
 	add(Spec{
 		PropSpec: vlib.PropSpec{
 			ID: "C06", Level: "exploration",
-			Rule: "roundtrip phase: layer values x = every serializable layer of every error-free packet obtained by decoding corpus inputs (fixtures, capture files, constructed packets, their mutations) as each registered layer type; payload P = the layer's decoded payload. Part A: bytes(x, no fixing) decoded as x's type must give the same exported field values at every depth (lists in order) and the same payload. Part B (the statement): b1 = bytes(x, FixLengths+ComputeChecksums) must decode as x's type with no error, no truncation flag and payload P; the decoded layer L1 written again must give exactly b1, and decodes to the same field values. stacks phase: constructed Ethernet stacks (VLAN, IPv4 with options, IPv6 with extension headers, TCP with options, UDP, ICMPv4/6 incl. NDP options, DNS, ARP, GRE, VXLAN, SCTP ...) are decoded, written with SerializeLayers, decoded (same layer types, same fields, no truncation), and SerializePacket of that packet must reproduce the bytes. Non-trivial = round trip with a non-empty payload; distinct by (type, fields, payload) hash.",
-			Assumptions: []string{"field comparison covers exported fields; Contents/Payload of the embedded BaseLayer are compared as bytes through the round trip, not as struct fields", "transport checksums use the enclosing IPv4/IPv6 layer of the source packet as pseudo-header"},
+			Rule: "roundtrip phase: layer values x = every serializable layer of every error-free packet obtained by decoding corpus inputs (fixtures, capture files, constructed packets, their mutations) as each registered layer type; payload P = the layer's decoded payload. b1 = bytes(x, FixLengths+ComputeChecksums) must decode as x's type with no error, no truncation flag raised by that layer's decoder, and payload P; the decoded layer L1 must equal x (as the serializer left it after fixing its length and checksum fields in place) in every exported field at every depth, lists in order, except fields that are derived (name contains len/length/size/count/num/checksum/crc/fcs/padding/pad/ihl/dataoffset/offset/reserved; raw RDATA copies of DNS records) - those are covered by the fixpoint: L1 written again must give exactly b1 and decode to the same field values. Layer types without a decoder of their own (SCTP chunks) are covered inside their parent by the stacks phase. stacks phase: constructed Ethernet stacks (VLAN, IPv4 with options, IPv6 with extension headers, TCP with options, UDP, ICMPv4/6 incl. NDP options, DNS, ARP, GRE, VXLAN, SCTP ...) are decoded, written with SerializeLayers, decoded (same layer types, same fields, no truncation), and SerializePacket of that packet must reproduce the bytes. built phase: stacks built from in-range field values through the public struct fields (Ethernet, 0-2 VLAN tags, IPv4 with aligned option lists / IPv6 with hop-by-hop and destination headers carrying 1-4 TLV options of 0..13 data bytes so that every residue of the header length mod 8 occurs, routing header; GRE with checksum/key/sequence/routing/ack combinations around a second IP header; TCP with aligned option lists, UDP, DNS with A/AAAA/NS/CNAME/PTR/MX/SRV/SOA/TXT records, ICMPv4, ICMPv6 echo and the four NDP messages with 0-4 options, VXLAN, SCTP data, ARP, unknown IP protocol) over payloads of 0, 1, 2, 3, 17, 45..47, 255, 1471..1473, 9001, 65000 and random sizes and IPv6/TCP jumbograms of 65536, 65537, 70001 bytes: SerializeLayers must succeed, the bytes must decode without error or truncation flag to the same layer types, every built layer must equal the decoded layer in all exported fields except derived ones (alignment pad options excluded), the payload must come back, and SerializePacket of the decoded packet must reproduce the bytes. Non-trivial = round trip with a non-empty payload; distinct by (type, fields, payload) hash.",
+			Assumptions: []string{"field comparison covers exported fields; Contents/Payload of the embedded BaseLayer are compared as bytes through the round trip, not as struct fields", "transport checksums use the enclosing IPv4/IPv6 layer of the source packet as pseudo-header", "an Ethernet payload shorter than 46 bytes comes back zero-padded to 46 bytes (minimum frame size; the frame carries no length), and a stack shorter than 60 bytes decodes with that padding as a trailing all-zero Payload layer: both are accepted", "a serializer that returns an error for a decoded value is counted (part_B_serializer_returned_error), not flagged: the statement is about written layers", "layer values taken from packets that decoded with the truncation flag are not used (a jumbo length without its data is inconsistent by construction)", "the payload of a jumbo IPv6 header is what follows its hop-by-hop header (LayerPayload includes that header, pinned by TestIPv6JumbogramDecode)"},
 			Phases: []vlib.Phase{
 				{Name: "roundtrip", Bin: "vchild", Quick: 16, Thorough: 16},
 				{Name: "stacks", Bin: "vchild", Quick: 16, Thorough: 16},
+				{Name: "built", Bin: "vchild", Quick: 16, Thorough: 16},
 			},
-			Require: []string{"part_B_roundtrips", "stacks_round_tripped"},
+			Require: []string{"part_B_roundtrips", "stacks_round_tripped", "built_stacks_round_tripped"},
 		},
 		LevelText: "Runtime monitoring with a round-trip oracle: decode(serialize(x)) against x (canonical signatures of exported fields), serialize(decode(b)) against b, over layer values harvested from decoding and mutation of a fixture/capture/constructed corpus for every registered layer type.",
 		LevelNote: trusted,
